@@ -19,6 +19,33 @@ if len(sys.argv) > 2 and sys.argv[2] == 'round3':
 Diversity request: earlier studies already collected the obvious changes in the functions most directly connected with this property, and also changes of these kinds: missing/extra std::move or std::forward, a check moved outside its lock, a counter or field forgotten in a copy/move constructor, a dropped self-assignment guard, a wrong index in a template recursion. Do NOT repeat those. Look instead at: the interaction of two features (filters or other mixins with queues; removers with heterogeneous containers; the ordered queue list with processIf/processUntil; nested invocation with SingleThreading; a custom Callback type, a custom map, custom Threading primitives); compile-time selected alternatives (enable_if overload pairs, #if branches such as the GCC-4 variant of CallbackList::operator(), const vs non-const overload pairs that must agree); memory-order arguments and atomics; noexcept specifiers and exception paths (what state is left when a user callable or a copy throws half-way); default template arguments and policy defaults; lifetime of temporaries and captured state (by reference vs by value, dangling); the helpers in eventutil.h, forEach/forEachIf, argumentadapter.h, conditionalfunctor.h, anydata.h, anyid.h, orderedqueuelist.h. The two changes must be of different kinds and in different functions, and at least one of them should involve two sites or two features that each look fine alone.
 '''
 
+FOCUS = {
+ 'C01': 'forEach, forEachIf, ownsHandle, empty and the hasListener/removeListener helpers "always describe that same content"; insert "at the back when that callback is no longer in the list"',
+ 'C02': '"nested invocations obey the same rules on their own" and "when the outermost invocation returns the list holds exactly what the same operations would have produced outside an invocation"',
+ 'C03': '"the final listener order [is that] of some sequential execution" and "every invocation or enumeration visits each callback that stayed in the list for its whole duration exactly once"',
+ 'C04': '"any key type and map kind" and "per event every listener-management operation behaves exactly like the corresponding callback-list operation" (hasAnyListener, forEach, insertListener, prependListener ...)',
+ 'C05': 'peekEvent, takeEvent and clearEvents ("handed out by exactly one takeEvent, or discarded by clearEvents", "each call\'s boolean result tells whether it ... found (peek/take) an event")',
+ 'C06': 'takeEvent, peekEvent and clearEvents racing with enqueue and process*, and "no call deadlocks"',
+ 'C07': '"A wait during whose entire duration a DisableQueueNotify object is alive does not return" and "waitFor returns false only after its timeout" (HeterEventQueue included)',
+ 'C08': '"a removed callback is released as soon as no invocation that was running when it was removed is still in progress" and "copies, moves, swaps" of lists, dispatchers and queues',
+ 'C09': '"a failed copy of any container leaves its source untouched and its destination valid" and "an exception escaping an invocation, dispatch or processing call leaves the listener lists as the callbacks themselves left them"',
+ 'C10': 'moving and swapping dispatchers, queues and the heterogeneous classes; "a queue reports empty until something is enqueued into it, and waiting, notification and processing work" on the object obtained',
+ 'C11': 'HeterEventQueue, and "from every other thread during that time"',
+ 'C12': 'argumentAdapter ("receives those same argument values converted to its own parameter types", shared_ptr conversions), "removed filters never run again", MixinHeterFilter',
+ 'C13': '"all exactly-once guarantees of the queue continue to hold" with the ordered list: takeEvent, peekEvent, clearEvents, processOne on an ordered queue; custom comparator',
+ 'C14': 'HeterEventQueue process / processOne "each consumed exactly once in FIFO order" across prototypes; handles, forEach/forEachIf and removal in the heterogeneous list and dispatcher',
+ 'C15': '"Listeners not added through the remover are never touched", "re-targeted" (setDispatcher / setCallbackList), swap, and the heterogeneous dispatcher as target',
+ 'C16': '"for nested and queued dispatches, and after the helper object itself has been destroyed"; prepend / insert variants; trigger count n <= 0',
+ 'C17': '"reading it back ... by get, conversion to reference or pointer, or getAddress yields an equal value at a stable address" and "inside a queued event"',
+ 'C18': '"equal ids hash equally", the default-constructed id, ids built from string literals / different integer types, use as EventQueue key',
+ 'C19': '"removed callbacks stay removed, and callbacks added afterwards are invoked by later invocations" and "Only invocations already in progress at the moment of the wrap may additionally call callbacks added during them"; swap / move / copy of lists near the wrap',
+ 'C20': '"user-supplied map, std::function or custom callback storage" and "any ... language standard from C++11 on" (feature-test macros, #if branches, constexpr / noexcept differences)',
+}
+if len(sys.argv) > 2 and sys.argv[2] == 'round4':
+    hint = '''
+Focus request: earlier studies already collected many changes for this property, in particular in the functions most directly connected with it and of these kinds: missing/extra std::move or std::forward, a check moved outside its lock, counters or fields forgotten in copy/move constructors, dropped self-assignment guards, wrong template indices, guards acquired too late or released too early, algorithm substitutions in the ordered queue list, delegating constructors. Do NOT repeat those. This time concentrate on this part of the statement: ''' + FOCUS[pid] + '''. Pick changes whose effect is on that part. The two changes must be of different kinds and in different functions.
+'''
+
 print(f'''You are given a scratch git worktree of the header-only C++11 library wqking/eventpp at {wt} (work ONLY inside that directory; never touch /repo or /verif, never read /verif). The library headers are in {wt}/include/eventpp, its unit tests (Catch) in {wt}/tests/unittest.
 
 Here is a semantic property the library is supposed to satisfy:
